@@ -376,7 +376,7 @@ def run_k2_partial(res, sets, featuresets, tier, drv=None):
             c = caps0[en]
             if not usable(c) or None in engine.behaviour_codes(c):
                 continue
-            if 25 in engine.behaviour_codes(c):
+            if 25 in engine.behaviour_codes(c) or 26 in engine.behaviour_codes(c):
                 # the corpus callback decide_bump looks at remainder(): its decision is not a function of the matched
                 # text alone, so a prefix and the whole input may legitimately differ (outside the property's premise)
                 continue
